@@ -1177,6 +1177,7 @@ type stanzaEncoder struct {
 }
 
 func (se *stanzaEncoder) EncodeToken(t xml.Token) error {
+	depth := se.depth
 	switch tok := t.(type) {
 	case xml.StartElement:
 		se.depth++
@@ -1245,7 +1246,13 @@ func (se *stanzaEncoder) EncodeToken(t xml.Token) error {
 		se.depth--
 	}
 
-	return se.TokenWriteFlusher.EncodeToken(t)
+	err := se.TokenWriteFlusher.EncodeToken(t)
+	if err != nil {
+		// A token that was refused is not part of the output: do not let it
+		// change what we consider to be the top level.
+		se.depth = depth
+	}
+	return err
 }
 
 // UpdateAddr sets the address used by the session.
